@@ -6,6 +6,7 @@ TRUSTED_BASE = [
     "Lean 4.33.0 kernel (lake build; thorough tier: leanchecker re-check of the Props modules)",
     "axioms admitted: propext, Classical.choice, Quot.sound (audited with #print axioms on every run)",
     "tools/extract.py (translator of constants, tables, growth rule, guards, delegating bodies, atomic orderings)",
+    "tools/rs2lean.py (translator of the control flow of repr.rs into LSModel/GenRepr.lean) and LSModel/Rt.lean (the meaning of the primitives the translated code calls: HeapBuffer/InlineBuffer/StaticBuffer methods, atomics, transmutes)",
     "hand-written Lean model of the pointer code (LSModel/Handle.lean, Api.lean), tied to /repo by the correspondence run of this check",
     "harness/ (shadow heap, script executor, String/std oracles) and the verif-hooks feature of /repo",
 ]
@@ -50,6 +51,39 @@ G11 = CONSTS + ["guardReserveUnique", "guardWithCapacity", "guardReserveInline"]
 G13 = CONSTS + ["guardShrinkInline", "guardShrinkNoop"]
 G06 = CONSTS + ["guardTextLenNew", "guardCapacityNew", "guardStaticNew", "amortizedGrowth"]
 G20 = CONSTS + ["lastByteDiscriminants"]
+
+# Tie 1b: modules of LSProofs/Gen (translated repr.rs = hand model), the translated functions each consumes,
+# and which properties have them among their obligations (the functions their anchors name).
+def T(*names):
+    return [f"LSProofs.Gen.{n}" for n in names]
+
+TIE_FUNCS = {
+    "LSProofs.Gen.Ctor": ["Repr.new", "Repr.from_str", "Repr.with_capacity"],
+    "LSProofs.Gen.Readers": ["Repr.capacity", "Repr.is_unique"],
+    "LSProofs.Gen.Release": ["Repr.replace_inner"],
+    "LSProofs.Gen.SetLen": ["Repr.set_len", "Repr.truncate_unchecked", "Repr.truncate"],
+    "LSProofs.Gen.Reserve": ["Repr.reserve", "Repr.replace_inner"],
+    "LSProofs.Gen.Ensure": ["Repr.ensure_modifiable", "Repr.replace_inner", "Repr.from_str"],
+    "LSProofs.Gen.Shrink": ["Repr.shrink_to", "Repr.replace_inner"],
+    "LSProofs.Gen.Clone": ["Repr.make_shallow_clone"],
+    "LSProofs.Gen.Clear": ["LeanString.clear", "Repr.is_unique", "Repr.set_len", "Repr.replace_inner", "Repr.new"],
+    "LSProofs.Gen.Kind": ["Repr.is_heap_buffer_body", "Repr.is_static_buffer_body"],
+}
+TIES = {
+    "C01": T("Ctor", "Readers", "Release", "SetLen", "Reserve", "Ensure", "Shrink", "Clone", "Clear"),
+    "C02": T("Reserve", "Ensure", "Shrink", "Clear", "SetLen"),
+    "C03": T("Release", "Clone", "Reserve", "Ensure", "Shrink"),
+    "C05": T("Reserve", "Ensure", "Shrink", "SetLen", "Ctor"),
+    "C06": T("Reserve", "Shrink", "Ctor"),
+    "C07": T("SetLen"),
+    "C08": T("Clone"),
+    "C09": T("Ctor", "Reserve"),
+    "C10": T("Reserve", "Ensure", "Clear", "SetLen"),
+    "C11": T("Readers", "Ctor", "Reserve"),
+    "C12": T("Reserve"),
+    "C13": T("Shrink"),
+    "C20": T("Kind"),
+}
 
 PROPS = {
     "C01": P("C01", ["LSProofs.Props.C01"], ["out", "text", "len", "handles"],
@@ -115,3 +149,15 @@ PROPS = {
              [fam("niche", n=1), RANDOM_Q], [fam("niche", n=1), RANDOM_T, ENUM_T], G20,
              search=[fam("random", n=30000)], configs=True),
 }
+
+for _pid, _mods in TIES.items():
+    PROPS[_pid]["modules"] = PROPS[_pid]["modules"] + _mods
+    PROPS[_pid]["ties"] = _mods
+    PROPS[_pid]["consumes"] = PROPS[_pid]["consumes"] + sorted({f for m in _mods for f in TIE_FUNCS[m]})
+
+# which calls a property's statement quantifies over (a model/crate divergence that first shows at another
+# call is counted under model_disagreements_other_fields, not charged to the property)
+SHRINK_OPS = ["shrink_to", "shrink_to_fit"]
+PROPS["C13"]["op_scope"] = {"include": True, "ops": SHRINK_OPS}
+PROPS["C12"]["op_scope"] = {"include": False, "ops": SHRINK_OPS}
+PROPS["C08"]["op_scope"] = {"include": True, "ops": ["clone", "clone_from", "from_ref", "to_ls", "drop"]}
